@@ -93,7 +93,7 @@ CHECKS["C07"] = dict(
          "parentheses; the operator of every link is symbolic; z3 decides slot by slot that the result is the left fold that honours every parenthesis. "
          "(B) the packrat parser itself: parser::parse (all 36 memoised parse functions, macros expanded, the HashMap cache, error recovery) is executed on symbolic "
          "token sequences -- a token's kind is a solver variable refined only when the parser inspects it, so one path stands for a product of kinds; every "
-         "sequence of <= 3 (quick) / 5 (thorough) tokens over all 29 kinds, and <= 5 / 7 tokens over four restricted alphabets (binders, definitions, operators, "
+         "sequence of <= 3 (quick) / 4 (thorough) tokens over all 29 kinds, and <= 5 / 6 tokens over four restricted alphabets (binders, definitions, operators, "
          "conditionals). Obligations: the packrat stage accepts exactly the sentences of /repo/grammar.y (B1, both directions, recogniser generated from the "
          "grammar each run) and builds the tree of the unique derivation: node kinds, token spans, group flags, binders (B2). "
          "(C) grammar.y itself: for every token string of length <= 6/8 over the 28 token kinds, z3 shows that no span has two derivations. "
